@@ -318,7 +318,8 @@ func (c *compiler) setup() {
 // used in setup()
 func (c *compiler) setupErrorStrings() {
 	createErrorString := func(msg string) *ir.Global {
-		error_string := c.mod.NewGlobalDef("", constant.NewCharArrayFromString(msg))
+		// the runtime reads the format up to its terminator
+		error_string := c.mod.NewGlobalDef("", constant.NewCharArrayFromString(msg+"\x00"))
 		error_string.Linkage = enum.LinkageInternal
 		error_string.Visibility = enum.VisibilityDefault
 		error_string.Immutable = true
